@@ -8,6 +8,8 @@ import Compio.Model.Executor
 
 namespace Compio.Executor
 open Compio.TaskWord Compio.Gen
+set_option linter.unusedSimpArgs false
+set_option linter.unusedVariables false
 
 /-! ## The generated word operations on explicit fields
 (these `rfl` lemmas break when task/state.rs changes a mask — intended) -/
@@ -78,5 +80,112 @@ structure TInv (inQ : Bool) (t : TaskSt) : Prop where
   sl : t.slotSets = t.slotDrops + (if t.slot.isSome then 1 else 0)
   /-- a live handle on a completed task finds the result (`unreachable!` in `Local::poll`) -/
   hd : t.handle = true → t.word.completed = true → t.word.hasResult = true
+
+/-! ## `Task::run` branch by branch -/
+
+/-- the task after a poll that returned Pending -/
+def polledTask (t : TaskSt) : TaskSt :=
+  { t with word := TaskState.unschedule t.word, polls := t.polls + 1, script := t.script.drop 1 }
+
+/-- the task after a poll that cloned the task waker and returned Pending -/
+def clonedTask (t : TaskSt) : TaskSt :=
+  { polledTask t with word := TaskState.inc (TaskState.unschedule t.word), wakers := t.wakers + 1 }
+
+/-- the task after its future returned Ready / panicked: result published, `Task::drop`, reference released -/
+def finishedTask (t : TaskSt) (o : Outcome) : TaskSt :=
+  dropRef (taskDropByExecutor
+    { t with word := TaskState.finishRunning (TaskState.unschedule t.word), polls := t.polls + 1,
+             script := t.script.drop 1, futDrops := t.futDrops + 1,
+             storage := if o = .panic then .resultPanic else .resultOk })
+
+/-- the task after `Task::run` found it cancelled: `Task::drop`, reference released -/
+def droppedTask (t : TaskSt) : TaskSt :=
+  dropRef (taskDropByExecutor { t with word := TaskState.unschedule t.word })
+
+theorem runTask_cancelled (t : TaskSt) (hc : t.word.notCancelled = false) :
+    runTask t = (droppedTask t, .dropped, none) := by
+  simp [runTask, hc, droppedTask]
+
+theorem runTask_pending (t : TaskSt) (hc : t.word.notCancelled = true) (hb : t.word.completed = false)
+    (hs : t.script = [] ∨ ∃ r, t.script = .pending :: r) :
+    runTask t = (polledTask t, .pending, none) := by
+  rcases hs with hs | ⟨r, hs⟩ <;> simp [runTask, hc, hb, hs, polledTask]
+
+theorem runTask_wakeSelf (t : TaskSt) (hc : t.word.notCancelled = true) (hb : t.word.completed = false)
+    (r : List Outcome) (hs : t.script = .wakeSelf :: r) :
+    runTask t = (polledTask t, .wokeSelf, none) := by
+  simp [runTask, hc, hb, hs, polledTask]
+
+theorem runTask_clone (t : TaskSt) (hc : t.word.notCancelled = true) (hb : t.word.completed = false)
+    (r : List Outcome) (hs : t.script = .cloneWaker :: r) :
+    runTask t = (clonedTask t, .pending, none) := by
+  simp [runTask, hc, hb, hs, polledTask, clonedTask]
+
+theorem runTask_ready (t : TaskSt) (hc : t.word.notCancelled = true) (hb : t.word.completed = false)
+    (o : Outcome) (r : List Outcome) (hs : t.script = o :: r) (ho : o = .ready ∨ o = .panic) :
+    runTask t = (finishedTask t o, .finished,
+                 if t.word.hasWaker && t.word.notSettingWaker then t.slot else none) := by
+  rcases ho with ho | ho <;> subst ho <;> simp [runTask, hc, hb, hs, finishedTask]
+
+set_option hygiene false in
+/-- split task `t` and invariant `h` into explicit fields, decide the flags, finish by `simp`/`omega` -/
+macro "task_tac" "[" defs:Lean.Parser.Tactic.simpLemma,* "]" : tactic => `(tactic| (
+  obtain ⟨⟨s, sg, nsw, hw, c, hr, nc, cnt⟩, st, slot, script, sh, hd, wk, polls, fd, rt, rd, ss, sd, de, uaf, bp⟩ := t
+  obtain ⟨h1, h2, h3, h4a, h4b, h4c, h4d, h5a, h5b, h5c, h5d, h5e, h5f, h6, h7, h8, h9, h10, h11, h12, h13⟩ := h
+  cases nsw <;> cases c <;> cases hr <;> cases hw <;> cases hd <;> simp [holders] at * <;>
+    subst_vars <;> simp [isRes] at * <;> constructor <;>
+    simp [$defs,*, dropRef, taskDropByExecutor, holders, isRes] <;> (try split) <;> (try simp_all) <;> (try omega)))
+
+theorem polledTask_inv (t : TaskSt) (h : TInv true t) : TInv true (polledTask t) := by
+  task_tac [polledTask]
+
+theorem clonedTask_inv (t : TaskSt) (h : TInv true t) : TInv true (clonedTask t) := by
+  task_tac [polledTask, clonedTask]
+
+theorem finishedTask_inv (t : TaskSt) (o : Outcome) (h : TInv true t) : TInv false (finishedTask t o) := by
+  by_cases ho : o = .panic
+  · subst ho
+    task_tac [finishedTask]
+  · have e : finishedTask t o = finishedTask t .ready := by simp [finishedTask, ho]
+    rw [e]
+    task_tac [finishedTask]
+
+theorem droppedTask_inv (t : TaskSt) (h : TInv true t) : TInv false (droppedTask t) := by
+  task_tac [droppedTask]
+
+theorem clearedTask_inv (t : TaskSt) (h : TInv true t) : TInv false (dropRef (taskDropByExecutor t)) := by
+  task_tac [dropRef]
+
+theorem spawnedTask_inv (sc : List Outcome) :
+    TInv true { word := TaskState.new 2, storage := .future, slot := none, script := sc,
+                shared := true, handle := true, wakers := 0, polls := 0, futDrops := 0,
+                resTaken := 0, resDrops := 0, slotSets := 0, slotDrops := 0, deallocs := 0, uaf := 0,
+                badPolls := 0 } := by
+  constructor <;> simp [holders, isRes]
+
+/-! ## handle and waker steps -/
+
+theorem pollTask_inv (q : Bool) (t : TaskSt) (w : Nat) (h : TInv q t) (hh : t.handle = true) :
+    TInv q (pollTask t w).1 := by
+  cases q <;> cases hn : t.word.notCancelled <;> task_tac [pollTask]
+
+theorem detachedTask_inv (q : Bool) (t : TaskSt) (h : TInv q t) (hh : t.handle = true) :
+    TInv q (dropRef { t with handle := false }) := by
+  cases q <;> task_tac [dropRef]
+
+theorem handleDropTask_inv (q : Bool) (t : TaskSt) (h : TInv q t) (hh : t.handle = true) :
+    TInv q (dropRef { cancelWord t true with handle := false }) := by
+  cases q <;> task_tac [cancelWord]
+
+theorem cancelWord_inv (q : Bool) (t : TaskSt) (h : TInv q t) :
+    TInv q (cancelWord t false) := by
+  have e : cancelWord t false = { t with word := { t.word with notCancelled := false } } := by
+    simp [cancelWord]
+  rw [e]
+  cases q <;> task_tac [cancelWord]
+
+theorem wakerDropTask_inv (q : Bool) (t : TaskSt) (h : TInv q t) (hh : t.wakers ≠ 0) :
+    TInv q (dropRef { t with wakers := t.wakers - 1 }) := by
+  cases q <;> task_tac [dropRef]
 
 end Compio.Executor
